@@ -21,5 +21,12 @@ pub use evidence::Evidence;
 pub use known::Known;
 pub use outcome::Outcome;
 
-pub const VERIF_ROOT: &str = "/verif";
-pub const REPO_ROOT: &str = "/repo";
+/// Root of the verification tree (evidence/, replay/, work/, known-findings.txt). `VERIF_ROOT` overrides it
+/// (used only by tools/mutant_run.sh to run a check against a scratch copy of the repository).
+pub fn verif_root() -> std::path::PathBuf {
+    std::path::PathBuf::from(std::env::var("VERIF_ROOT").unwrap_or_else(|_| "/verif".to_string()))
+}
+/// Root of the repository under test (seed corpus, docs). `VERIF_REPO` overrides it.
+pub fn repo_root() -> std::path::PathBuf {
+    std::path::PathBuf::from(std::env::var("VERIF_REPO").unwrap_or_else(|_| "/repo".to_string()))
+}
